@@ -69,7 +69,7 @@ CHECKS["C04"] = dict(
          "a readout that is valid with payload = exactly the bytes between identification line and '!' and the transmitted identification "
          "groups; payload_exact; ident_wellformed (what a pattern match means). Correspondence: real DataReadout vs model on valid readouts, "
          "all kinds of checksum-field replacement (0000 on zero- and non-zero-CRC readouts, case variants, +-1, non-hex text incl. 0x/_/sign "
-         "forms of int()), bit flips, noise, and spec-encoded readouts; thorough adds all 65536 checksum values.",
+         "forms of int()), bit flips, noise, and spec-encoded readouts; the first three readouts of a fresh interpreter (a new process per case, direct and through the reader: is_valid does not depend on what the process did before); thorough adds all 65536 checksum values.",
     note=NOTE_COMMON + "Modelled, not verified: bytes.decode/strip/find, int(text,16) grammar, the identification regular expression "
          "(deterministic equivalent pinned to the pattern text).",
     technique="Lean 4 proof over models of DataReadout/Ident/CRC16 and CPython string built-ins + differential correspondence",
@@ -96,7 +96,7 @@ CHECKS["C13"] = dict(
          "forwarded items in order). Correspondence: real SmartMeterMessageProtocol / SmartMeterMessagePayloadProtocol with real "
          "readers and asyncio.Queue vs the model instantiated with the HDLC and P1 reader models, on clean/corrupted/mixed streams x "
          "chunkings x 11 candidate lists; the implementation's queue is also compared with the specification computed from separately fed "
-         "real readers.",
+         "real readers, and on clean streams with what the generator transmitted (byte by byte, a cut after every flag / line end, every candidate order inside hQuiet).",
     note=NOTE_COMMON + "Partial: the clean-stream sentence of the statement needs 'the other candidate reports no valid message before "
          "selection' (an HDLC payload may legally embed a complete P1 readout), so it is checked on generated streams, not proved unconditionally.",
     technique="Lean 4 proof (generic refinement of data_received to a per-reader specification; translated data_received = model step) + differential correspondence",
@@ -219,7 +219,7 @@ CHECKS["C11"] = dict(
          "decoding + the two identification fields); kilo_unit_bound - for every decimal with up to three fractional digits and product "
          "E < 2^50, int(float(value)*1000) is E or E-1, never above (proved about the exact binary64 model, with a machine-checked witness "
          "that E-1 occurs). Correspondence: grammar-generated blocks through real parse/decode/AutoDecoder paths vs model; the one-sided "
-         "bound is also evaluated on the real interpreter for a slice (quick) or all (thorough) of the 10^6 three-decimal values.",
+         "bound is also evaluated on the real interpreter for a slice (quick) or all (thorough) of the 10^6 three-decimal values; the four routes are evaluated separately (a block one route decodes and another refuses is a failure).",
     note=NOTE_COMMON + "Modelled, not verified: str.splitlines/strip/find/split/lower, float(str), float multiplication, int(float), datetime().",
     technique="Lean 4 proof (parser round trip with explicit fuel, exact binary64 error analysis in Mathlib rationals) + differential correspondence",
     design="5/C11")
@@ -237,7 +237,7 @@ CHECKS["C12"] = dict(
          "hypothesis carries a decide-checked witness that it is needed and a non-vacuity example. Tie by translation (Props/C12GenAuto.lean): "
          "gen_decodePayload - decode_message_payload as mechanically translated from the source equals Auto.step for every decoder list, "
          "except-clause, remembered index and payload. Correspondence: histories exhaustively to length 2 (3 thorough) over a 14-element pool and randomly to length 30, each "
-         "step judged against the seven individual real decoders; own-decoder checks incl. bare bodies; decode_message vs payload.",
+         "step judged against the seven individual real decoders; own-decoder checks incl. bare bodies; decode_message vs payload, also for messages that are not valid (damaged FCS, 1-4 octet DLMS messages) and P1 readout objects judged against decode_p1_readout on its own.",
     note=NOTE_COMMON + "Partial: for bare Aidon / Kaifa-OBIS / Kamstrup bodies 'own decoder on a fresh AutoDecoder' is proved under the explicit "
          "octet-level hypothesis noApduStart (lists whose first OBIS code makes octets 9.. read as a date-time + list start ARE taken by a frame "
          "decoder: checked witnesses, behaviour of the real code, outside 'genuine' lists whose first element is the list-version id).",
@@ -250,7 +250,7 @@ CHECKS["C15"] = dict(
          "input (unbalanced parentheses, trailing garbage) within len(data) loop iterations; kamstrup_greedy_fuel / kaifa_greedy_fuel - the "
          "GreedyRange loops never depend on their fuel (every iteration consumes input); kamstrup_greedy_count. Correspondence: 40k-scale "
          "mutation neighbourhood of genuine messages x every remembered decoder under a 2 s alarm vs the model (results AND remembered "
-         "index), individual decoders incl. exception classes, real parse loop vs model on ASCII fragments; time per octet recorded.",
+         "index), message objects incl. readouts without LF / with bare CR line ends, individual decoders incl. exception classes, real parse loop vs model on ASCII fragments; time per octet recorded.",
     note=NOTE_COMMON + "Partial: wall time / memory of the construct library are measured, not proved.",
     technique="Lean 4 proof (totality via regenerated except clause, fuel-independence of every modelled loop) + mutation-based differential correspondence",
     design="5/C15")
